@@ -140,8 +140,34 @@ def generate(rng, tier, run, seed=0):
 def spawn(mode, spec, hashseed):
     env = dict(os.environ, PYTHONHASHSEED=str(hashseed))
     env.pop('PYTHONPATH', None)
-    p = subprocess.run([sys.executable, HISTOPS, mode], input=json.dumps(spec).encode(), stdout=subprocess.PIPE, stderr=subprocess.PIPE,
-                       env=env, timeout=600)
+    # a history takes a second or two; a child that does not answer within 75 s is killed with its whole process group
+    # (the pristine mode forks per operation) and started once more - a stall of the sandbox is not a property of pyx12;
+    # a second stall is reported as a harness error (exit 2), never as a verdict
+    import signal
+
+    class _P(object):
+        pass
+    p = _P()
+    for attempt in (0, 1):
+        proc = subprocess.Popen([sys.executable, HISTOPS, mode], stdin=subprocess.PIPE, stdout=subprocess.PIPE, stderr=subprocess.PIPE,
+                                env=env, start_new_session=True)
+        try:
+            p.stdout, p.stderr = proc.communicate(input=json.dumps(spec).encode(), timeout=75)
+            p.returncode = proc.returncode
+            break
+        except subprocess.TimeoutExpired:
+            try:
+                os.killpg(proc.pid, signal.SIGKILL)
+            except OSError:
+                pass
+            proc.wait()
+            for f in (proc.stdin, proc.stdout, proc.stderr):
+                try:
+                    f.close()
+                except Exception:
+                    pass
+            if attempt:
+                raise RuntimeError('%s process did not finish within 75 s, twice' % mode)
     if p.returncode != 0:
         raise RuntimeError('%s process failed: %s' % (mode, p.stderr.decode(errors='replace')[-1500:]))
     return json.loads(p.stdout.decode())
